@@ -214,7 +214,10 @@ def build_impl(e, fam=None):
         o = [num(x) for x in e["o"]]
         return ResampledLowLevelWCS(inner, f[0] if e.get("fscalar") else f, o[0] if e.get("oscalar") else o)
     if e["k"] == "reo":
-        return ReorderedLowLevelWCS(build_impl(e["w"], fam), e["po"], e["wo"])
+        # the orders are "iterables": lists, tuples or numpy arrays, by turns
+        kind = (sum(e["po"]) * 7 + sum(e["wo"]) * 3 + len(e["po"])) % 3
+        conv = [list, tuple, np.array][kind]
+        return ReorderedLowLevelWCS(build_impl(e["w"], fam), conv(e["po"]), conv(e["wo"]))
     return CompoundLowLevelWCS(*[build_impl(w) for w in e["ws"]], mapping=tuple(e["mapping"]))
 
 
